@@ -1,1 +1,42 @@
-PARTS = []
+"""C20 (KDE part): rows are non-negative densities on the fitted grid that depend only on the multiset of values."""
+import random
+
+from .. import adapters, protocol
+
+
+def call(op, b):
+    return {"op": op, "b": b, "knob": 0, "expect_ok": True}
+
+
+def part_kde(ctx):
+    rng = random.Random(ctx.seed)
+    hs = protocol.generate(ctx, 6, 3, 3, ["fit", "transform"], simulate="num=%d" % ctx.pick(300, 3000), seed=ctx.seed + 2,
+                           what="Protocol fit->transform histories over 6 items (two pairs share a bag of values)")
+    hs = [h for h in hs if h[0]["op"] == "fit"]
+    base = [[call("fit", [1, 2, 3]), call("transform", [1, 4]), call("transform", [4, 2, 6])],
+            [call("fit", [4, 6, 5]), call("transform", [1, 2]), call("transform", [6, 4, 1])]]
+    cls = adapters.ALL["KDEVectorizer"]
+    idmap = {"4": 1, "6": 2}           # items 4 / 6 are permutations of items 1 / 2: same multiset of values
+    jobs = []
+    for ci in range(len(cls.configs)):
+        for h in base + rng.sample(hs, min(len(hs), ctx.pick(12, 120))):
+            jobs.append(dict(adapter="KDEVectorizer", cfg=ci, seed=ctx.seed, history=h, idmap=idmap))
+
+    def extra(j, rec):
+        bad = []
+        n = cls.configs[j["cfg"]].get("n_components", 50)
+        for s in rec["steps"]:
+            o = s["o"]
+            if o["rows"]:
+                if o.get("min", 0.0) < -1e-12:
+                    bad.append("negative density")
+                if not o.get("finite", True):
+                    bad.append("non-finite density")
+                if o["width"] != n:
+                    bad.append("width %s instead of n_components %s" % (o["width"], n))
+        return sorted(set(bad))
+    protocol.run_jobs(ctx, jobs, "kde_bag", ignore=("arguments_modified", "transform_changed_the_model", "same_seed_same_model"),
+                      extra_check=extra, min_chunk=10, nontrivial=lambda j: any(x in (4, 6) for c in j["history"] for x in c["b"]))
+
+
+PARTS = [("kde", part_kde)]
